@@ -327,7 +327,21 @@ func c18Spaces(tier string) []c18Space {
 	if tier == "thorough" {
 		maxNum = 1 << 20
 	}
-	spaces = append(spaces, c18Space{kind: "numbers", total: (maxNum + 1) * 3, input: func(idx uint64) string {
+	// ... and the powers of two and ten around every machine integer width
+	bigNums := []string{"2147483647", "2147483648", "4294967295", "4294967296", "1099511627776", "4611686018427387904", "9223372036854775807", "9223372036854775808", "18446744073709551615", "18446744073709551616", "100000000000000000000", "0x7fffffff", "0x80000000", "0xffffffff", "0x7fffffffffffffff", "0xffffffffffffffff", "0x10000000000000000", "1000000000", "10000000000", "999999999999"}
+	spaces = append(spaces, c18Space{kind: "numbers", total: (maxNum+1)*3 + uint64(len(bigNums))*3, input: func(idx uint64) string {
+		if idx >= (maxNum+1)*3 {
+			big := idx - (maxNum+1)*3
+			lit := bigNums[big/3]
+			switch big % 3 {
+			case 0:
+				return "script S {\n\tif (var(V) == " + lit + ") {\n\t\tx(" + lit + ", value(" + lit + "))\n\t}\n\tswitch (var(X)) {\n\t\tcase " + lit + ":\n\t\t\tz\n\t}\n}\nmapscripts M {\n\tT [\n\t\tV, " + lit + ": S\n\t]\n}\nmovement Mv {\n\ts * " + lit + "\n}\n"
+			case 1:
+				return "text T {\n\tformat(\"aa bb cc dd\", \"TEST\", " + lit + ")\n}\nscript S2 {\n\tmsgbox(format(\"aa bb cc\", maxLineLength=" + lit + "))\n}\n"
+			default:
+				return "text T {\n\tformat(\"aa bb cc dd\", numLines=" + lit + ")\n}\ntext T2 {\n\tformat(\"aa bb cc dd\", cursorOverlapWidth=" + lit + ")\n}\n"
+			}
+		}
 		n := idx / 3
 		switch idx % 3 {
 		case 0, 1:
@@ -684,5 +698,5 @@ func runC18(tier string) int {
 		"configurations are a covering set, not the full matrix: every option value appears in at least one configuration",
 		"an error must be a parser.ParseError with 1 <= start line <= end line <= number of lines (counting the empty line after a final newline)")
 	return r.Finish(r.Get("evaluations"), r.Get("nontrivial"),
-		"(a) every sequence of <= L tokens from a 57-lexeme alphabet after each of 29 context prefixes, with 3 suffixes; (b) every single deviation (truncation, deletion, replacement or insertion by every alphabet token) of 12 seed programs that use every production (thorough: pairs of deviations on the small seeds); (c) every sequence of <= S well-formed statement templates (27 templates, shared with C01); (d) every sequence of <= D constant definitions over three names whose values mention each other, followed by a program using them at every use site; (e) every integer from 0 to 70000 (thorough 2^20), decimal and hex, at every position that interprets a number; (e') every scaled program (templates repeated K times, blocks nested K deep, switches with K cases); (f) every string of <= N characters over 23 characters incl. multi-byte letters, a 3-byte non-letter, U+FFFD, NUL, quote, backtick, CR, bare and inside 'script S { x('; each input under a covering set of configurations (optimize, line markers/path, switches, font file/default font, command configs incl. argument positions -1 and 3 and one whose keys are the identifier-like literals of the compiler's source and its keywords, normal and lint); evaluations = input x configuration runs; non-trivial = the input is rejected (an error path is taken)")
+		"(a) every sequence of <= L tokens from a 57-lexeme alphabet after each of 29 context prefixes, with 3 suffixes; (b) every single deviation (truncation, deletion, replacement or insertion by every alphabet token) of 12 seed programs that use every production (thorough: pairs of deviations on the small seeds); (c) every sequence of <= S well-formed statement templates (27 templates, shared with C01); (d) every sequence of <= D constant definitions over three names whose values mention each other, followed by a program using them at every use site; (e) every integer from 0 to 70000 (thorough 2^20) and 20 values around 2^31, 2^32, 2^63, 2^64 and powers of ten, decimal and hex, at every position that interprets a number; (e') every scaled program (templates repeated K times, blocks nested K deep, switches with K cases); (f) every string of <= N characters over 23 characters incl. multi-byte letters, a 3-byte non-letter, U+FFFD, NUL, quote, backtick, CR, bare and inside 'script S { x('; each input under a covering set of configurations (optimize, line markers/path, switches, font file/default font, command configs incl. argument positions -1 and 3 and one whose keys are the identifier-like literals of the compiler's source and its keywords, normal and lint); evaluations = input x configuration runs; non-trivial = the input is rejected (an error path is taken)")
 }
